@@ -407,7 +407,17 @@ def impl_floats(cb, impl):
     """all floats of the solve / named / info results of one case, in a fixed order"""
     from .common import b2f
     out = []
-    for kind, o in zip(cb.kinds, impl.get("ops", [])):
+    random_slots = set()
+    for j, (kind, o) in enumerate(zip(cb.kinds, impl.get("ops", []))):
+        # results of the production samplers (no pinned draws) differ from run to run: they say nothing about conditioning
+        js = cb.ops[j] if j < len(cb.ops) and isinstance(cb.ops[j], dict) else {}
+        if js.get("op") == "solve":
+            if js.get("draws") is None and js.get("method") in ("sampled", "external"):
+                random_slots.add(js.get("dst"))
+                continue
+            random_slots.discard(js.get("dst"))
+        elif js.get("src") in random_slots and js.get("op") in ("named", "info"):
+            continue
         if not isinstance(o, dict) or "ok" not in o:
             out.append(("status", str(sorted(o.keys())) if isinstance(o, dict) else str(o)))
             continue
